@@ -133,6 +133,9 @@ def render(spec, t, cur, full, linkidx=None, absolute=False):
             return spec['fnames'][t[1]]['name']
         if k == 'undef':
             return t[1]
+        if k == 'anchor':
+            b, s, r, c = t[1]
+            return '_xlfn.ANCHORARRAY(%s%s)' % (q(b, s), a1(r, c, absolute))
         if k == 'ref':
             b, s, r, c = t[1]
             return q(b, s) + a1(r, c, absolute or (len(t) > 2 and t[2]))
@@ -403,6 +406,10 @@ def tree_form(spec, t, cur):
         elif k == 'uni':
             for a in t[1:]:
                 go(a)
+        elif k == 'anchor':
+            b, s = t[1][0], t[1][1]
+            forms.add('array-formula')
+            forms.add('range-' + ('xbook' if b != cur[0] else 'xsheet' if s != cur[1] else 'same'))
         elif k == 'fn':
             for a in t[2:]:
                 go(a)
@@ -426,6 +433,8 @@ def features_of(spec):
         f.add('names')
     if spec.get('fnames'):
         f.add('formula-names')
+    if any("'anchor'" in repr(c.get('f')) for c in spec['cells']):
+        f.add('spill-anchor')
     for b in spec['books']:
         for s in b['sheets']:
             for cls, lst in dict(SHEET_NAMES, **SHEET_NAMES_EXTRA).items():
@@ -447,7 +456,7 @@ def depth_levels(spec):
 # ---------------------------------------------------------------- strategy
 @st.composite
 def specs(draw, tier='quick', max_books=2, arrays=True, names=True, wholecols=True, errors=True,
-          min_cells=4, max_cells=14, const=None, sheet_classes=None, name_rate=6, arr_rate=10, alias_rate=0, fname_rate=0, undef_rate=0):
+          min_cells=4, max_cells=14, const=None, sheet_classes=None, name_rate=6, arr_rate=10, alias_rate=0, fname_rate=0, undef_rate=0, anchor_rate=0):
     nb = draw(st.integers(1, max_books))
     used_names = set()
     books = []
@@ -493,7 +502,7 @@ def specs(draw, tier='quick', max_books=2, arrays=True, names=True, wholecols=Tr
         earlier = [k for ks in all_keys[:idx] for k in ks]
         later = {k for ks in all_keys[idx:] for k in ks}
         ctx = dict(spec=spec, locs=locs, earlier=earlier, later=later, cur=key, errors=errors,
-                   wholecols=wholecols, ncols_used=ncols_used, names_ok=names, undef_rate=undef_rate,
+                   wholecols=wholecols, ncols_used=ncols_used, names_ok=names, undef_rate=undef_rate, anchor_rate=anchor_rate,
                    arr_groups=[all_keys[j] for j in range(idx) if pos_list[j][1] is not None])
         if names and earlier and len(spec['names']) < 2 and draw(st.integers(0, name_rate - 1)) == 0:
             rect = draw(_dense_rect(ctx)) if draw(st.booleans()) else draw(_rect(ctx, small=True))
@@ -660,6 +669,14 @@ def _range_arg(draw, ctx):
 @st.composite
 def _agg_arg(draw, ctx):
     """argument of an aggregate: a range-like operand or, one time in six, a bracketed union of two on one sheet"""
+    real = [tuple(c_['at']) for c_ in ctx['spec']['cells'] if 'arr' in c_]  # planned array areas may have degraded to constants
+    groups = [g for g in (ctx.get('arr_groups') or []) if (g[0][0], g[0][1], min(k[2] for k in g), min(k[3] for k in g)) in real]
+    if ctx.get('anchor_rate') and groups and draw(st.integers(0, ctx['anchor_rate'] - 1)) == 0:
+        g = draw(st.sampled_from(groups))
+        b, s = g[0][0], g[0][1]
+        r1, r2 = min(k[2] for k in g), max(k[2] for k in g)
+        c1, c2 = min(k[3] for k in g), max(k[3] for k in g)
+        return ['anchor', [b, s, r1, c1], [b, s, r1, c1, r2, c2]]
     a = draw(_range_arg(ctx))
     if draw(st.integers(0, 5)) == 0 and a[0] in ('rng', 'ref'):
         b = draw(_range_arg(ctx))
